@@ -113,10 +113,14 @@ def strat_fb(draw, tier):
     nbits = draw(st.sampled_from([8, 32, 8]))
     nchans = draw(st.integers(1, 12))
     N = draw(st.integers(200, 400 if tier == "quick" else 800))
-    nfiles = draw(st.sampled_from([1, 1, 2]))
+    nfiles = draw(st.sampled_from([1, 1, 2, 3]))
     split = [N] if nfiles == 1 else [draw(st.integers(1, N - 1))]
     if nfiles == 2:
         split = [split[0], N - split[0]]
+    elif nfiles == 3:
+        a = draw(st.integers(1, N - 2))
+        b = draw(st.integers(a + 1, N - 1))
+        split = [a, b - a, N - b]
     lay = {"nbits": nbits, "nchans": nchans, "split": split, "data_seed": draw(st.integers(0, 2**31 - 1)),
            "data_kind": "f32int" if nbits == 32 else "full"}
     nbands = draw(st.integers(1, nchans))
